@@ -140,6 +140,7 @@ def get_string(dgram: bytes, start_index: int) -> Tuple[str, int]:
             return '', start_index + _STRING_DGRAM_PAD
         while dgram[start_index + offset] != 0:
             offset += 1
+        end_index = start_index + offset
         # Align to a byte word.
         if (offset) % _STRING_DGRAM_PAD == 0:
             offset += _STRING_DGRAM_PAD
@@ -149,8 +150,10 @@ def get_string(dgram: bytes, start_index: int) -> Tuple[str, int]:
         # do it ourselves.
         if offset > len(dgram[start_index:]):
             raise OscTypeParseError('Datagram is too short')
-        data_str = dgram[start_index:start_index + offset]
-        return data_str.replace(b'\x00', b'').decode('utf-8'), start_index + offset
+        if dgram[end_index:start_index + offset].strip(b'\x00'):
+            raise OscTypeParseError('Non null string padding')
+        data_str = dgram[start_index:end_index]
+        return data_str.decode('utf-8'), start_index + offset
     except IndexError as e:
         raise OscTypeParseError('Could not parse datagram') from e
     except TypeError as e:
